@@ -2,9 +2,11 @@
 from pyvc.api import *
 from pyvc.run import Lemma, Bounded
 from contracts.spec_common import *
+from contracts.spec_common import _xa
 from contracts.C01 import _wit_spectra
 from contracts.C03 import _wit_clean
 import pyvc.models.xr   # noqa
+import pyvc.models.npshape   # noqa  (np.prod, rank-2 unravel_index, ndarray.reshape merging leading axes)
 from pyvc.values import Ref, Obj
 
 PROPERTY = "C15"
@@ -579,7 +581,155 @@ def _reduce_contract(op):
 
 reduce_cs = [_reduce_contract(op) for op in ("mean", "sum", "std")]
 
-NEW = [isel_int, isel_slice] + getitem_cs + reduce_cs
+
+# ---- flatten: a (time x latitude) layout with symbolic sizes n1 x n2; C-order pairing of every spectrum with its coordinates
+LAT = "latitude"
+
+
+def _grid_spectrum(mk, kind):
+    """spectrum of the real class over two leading dimensions (time: n1, latitude: n2), both coordinates; depth and
+    longitude vary over the grid"""
+    n1, n2, nf = mk.size("n1"), mk.size("n2"), mk.size("nf")
+    f, t, la = mk.array("f", (nf,)), mk.array("time", (n1,)), mk.array("lat", (n2,))
+    lead = {P: t, LAT: la}
+    coords = {P: t, LAT: la, NAME_F: f}
+    sd, ss = (NAME_F,), (nf,)
+    if kind == "2d":
+        nd = mk.size("nd")
+        coords[NAME_D] = mk.array("theta", (nd,))
+        sd, ss = (NAME_F, NAME_D), (nf, nd)
+    vs = {}
+    for v in SPECV[kind]:
+        vs[v] = _xa(mk, (P, LAT) + sd, mk.array(v if v != NAME_E else "E", (n1, n2) + ss), mk.array(v + "_nan", (n1, n2) + ss, "bool"), coords)
+    vs["depth"] = _xa(mk, (P, LAT), mk.array("depth", (n1, n2)), mk.array("depth_nan", (n1, n2), "bool"), lead)
+    vs["longitude"] = _xa(mk, (P, LAT), mk.array("longitude", (n1, n2)), None, lead)
+    ds = mk.st.alloc(Obj("Dataset", {"vars": vs, "coords": {k: mk.st.deref(v) for k, v in coords.items()}}), "dataset")
+    return mk.instance(S + ("FrequencySpectrum" if kind == "1d" else "FrequencyDirectionSpectrum"), {"dataset": ds})
+
+
+def _p_flatten(kind):
+    def p(mk):
+        return _record(mk, ("self",))({"self": _grid_spectrum(mk, kind)})
+    return p
+
+
+def _native_grid(kw, inst):
+    import numpy as np, xarray
+    from ocean_science_utilities.wavespectra.spectrum import FrequencySpectrum, FrequencyDirectionSpectrum
+    d = kw["self"]
+    vs, cs = d["dataset"]["vars"], d["dataset"]["coords"]
+
+    def arr(x):
+        a = np.asarray(x["arr"], dtype="float64")
+        return np.where(np.asarray(x["nan"], dtype=bool), np.nan, a) if x.get("nan") is not None else a
+    two_d = NAME_D in cs
+    n1, n2 = arr(vs["depth"]).shape
+    coords = {"time": np.arange(n1).astype("datetime64[s]"), LAT: np.asarray(cs[LAT], dtype="float64"), NAME_F: np.asarray(cs[NAME_F], dtype="float64")}
+    sd = (NAME_F,)
+    if two_d:
+        coords[NAME_D] = np.asarray(cs[NAME_D], dtype="float64")
+        sd = (NAME_F, NAME_D)
+    data = {v: (("time", LAT) + sd, arr(vs[v])) for v in SPECV["2d" if two_d else "1d"]}
+    data["depth"] = (("time", LAT), arr(vs["depth"]))
+    data["longitude"] = (("time", LAT), arr(vs["longitude"]))
+    return {"self": (FrequencyDirectionSpectrum if two_d else FrequencySpectrum)(xarray.Dataset(data_vars=data, coords=coords))}
+
+
+def _wit_grid(kind, n1=3, n2=2):
+    def w():
+        import numpy as np, xarray
+        from ocean_science_utilities.wavespectra.spectrum import FrequencySpectrum, FrequencyDirectionSpectrum
+        rng = np.random.default_rng(n1 * 10 + n2)
+        f = np.array([0.03, 0.05, 0.08, 0.1, 0.2])
+        th = np.array([0.0, 90.0, 180.0, 270.0])
+        sd, ss = ((NAME_F,), (5,)) if kind == "1d" else ((NAME_F, NAME_D), (5, 4))
+        data = {v: (("time", LAT) + sd, rng.random((n1, n2) + ss)) for v in SPECV[kind]}
+        data[NAME_E][1][0, 0, 1] = np.nan
+        dep = rng.uniform(5, 100, (n1, n2))
+        dep[0, 0] = np.nan
+        data["depth"] = (("time", LAT), dep)
+        data["longitude"] = (("time", LAT), rng.uniform(-180, 180, (n1, n2)))
+        coords = {"time": (np.arange(n1) * 3600).astype("datetime64[s]"), LAT: np.linspace(-10, 10, n2), NAME_F: f}
+        if kind == "2d":
+            coords[NAME_D] = th
+        return (kind, {"self": (FrequencySpectrum if kind == "1d" else FrequencyDirectionSpectrum)(xarray.Dataset(data_vars=data, coords=coords))})
+    return w
+
+
+def _flat_sizes(a):
+    if not hasattr(a.self, "_o"):
+        return a.self.dataset["depth"].shape
+    d = a.self.dataset.vars["depth"].arr
+    return d.shape[0], d.shape[1]
+
+
+def _flatten_count(a, r):
+    if not hasattr(r, "_o"):
+        s = a.self
+        n1, n2 = s.dataset["depth"].shape
+        return bool(type(r) is type(s) and len(r) == n1 * n2 and r.dataset[NAME_E].dims[0] == "linear_index" and r.dataset[NAME_E].shape[0] == n1 * n2
+                    and _native_eq(r.dataset[NAME_F].values, s.dataset[NAME_F].values))
+    n1, n2 = _flat_sizes(a)
+    kind = _kind_of(a)
+    vs = r.dataset.vars
+    cs = [_same_class(a, r), set(vs) == set(SPECV[kind]) | {"depth", "longitude", "time", LAT},
+          r.dataset.coords[NAME_F]._a is a.self.dataset.coords[NAME_F]._a]
+    for v in SPECV[kind]:
+        cs += [vs[v].dims == ("linear_index",) + SDIMS[kind], eq(vs[v].arr.shape[0], n1 * n2)]
+    for v in ("depth", "longitude", "time", LAT):
+        cs += [vs[v].dims == ("linear_index",), eq(vs[v].arr.shape[0], n1 * n2)]
+    return And(*cs)
+
+
+def _flatten_pairing(which, form):
+    """C order: the flattened member q is the grid member unravel_index(q, (n1, n2)) = (q // n2, q % n2) [form 'unravel'];
+    equivalently the grid member (i, j) is the flattened member i*n2 + j [form 'ravel']"""
+    def clause(a, r):
+        if not hasattr(r, "_o"):
+            import numpy as np
+            s = a.self
+            n1, n2 = s.dataset["depth"].shape
+            ok = True
+            for q in range(n1 * n2):
+                i, j = (int(x) for x in np.unravel_index(q, (n1, n2)))
+                if which == "time":
+                    ok = ok and _native_eq(r.dataset["time"].values[q], s.dataset["time"].values[i])
+                elif which == LAT:
+                    ok = ok and _native_eq(r.dataset[LAT].values[q], s.dataset[LAT].values[j])
+                elif which in s.dataset:
+                    ok = ok and _native_eq(r.dataset[which].values[q], s.dataset[which].values[i, j])
+            return bool(ok)
+        sp = Spec(a.self)
+        n1, n2 = _flat_sizes(a)
+        kind = _kind_of(a)
+        vs, src = r.dataset.vars, a.self.dataset.vars
+
+        def pair(q, i, j):
+            if which == "time":
+                return eq(vs["time"].arr[q], a.self.dataset.coords["time"][i])
+            if which == LAT:
+                return eq(vs[LAT].arr[q], a.self.dataset.coords[LAT][j])
+            if which in ("depth", "longitude"):
+                return _cell(vs[which], (q,), src[which], (i, j))
+            return _over_spectral(sp, lambda ix: _cell(vs[which], (q,) + ix, src[which], (i, j) + ix))
+        if which not in SPECV[kind] and which in SPECV["1d"]:
+            return True
+        if form == "unravel":
+            return forall(0, n1 * n2, lambda q: pair(q, floordiv(q, n2), mod(q, n2)), "q")
+        return forall(0, n1, lambda i: forall(0, n2, lambda j: pair(i * n2 + j, i, j), "j"), "i")
+    return _structural(clause)
+
+
+_FLAT_VARS = SPECV["1d"] + ("depth", "longitude", "time", LAT)
+flatten_c = Contract(S + "WaveSpectrum.flatten", instances=[(k, _p_flatten(k)) for k in KINDS],
+                     requires=[("sizes", lambda a: And(_flat_sizes(a)[0] >= 0, _flat_sizes(a)[1] >= 0, Spec(a.self).nf >= 0, (Spec(a.self).nd >= 0) if Spec(a.self).two_d else True))],
+                     ensures=[("operand_unchanged_result_new", frame(("self",))),
+                              ("same_kind_one_leading_dimension_of_n1_times_n2_spectra_spectral_grid_kept", _structural(_flatten_count))] +
+                             [(f"member_q_is_grid_member_unravel_index_q.{v}", _flatten_pairing(v, "unravel"), {"1d"} if v in SPECV["1d"][1:] else {"1d", "2d"}) for v in _FLAT_VARS] +
+                             [(f"grid_member_i_j_is_member_i_times_n2_plus_j.{v}", _flatten_pairing(v, "ravel"), {"1d", "2d"}) for v in (NAME_E, "depth", "time", LAT)],
+                     native=_native_grid, witness=[_wit_grid(k, n1, n2) for k in KINDS for n1, n2 in ((3, 2), (2, 3), (1, 4))])
+
+NEW = [isel_int, isel_slice] + getitem_cs + reduce_cs + [flatten_c]
 
 def _bounded_restructure(tier, seed):
     """concatenate/select, flatten pairing, netCDF round trip and random operation sequences with bitwise operand snapshots
